@@ -269,6 +269,8 @@ pub fn gen_opaque(t: &mut Tape) -> OpaqueCase {
 pub fn check(ctx: &mut Ctx) {
     ctx.rule = "cases = tags generated from the documented grammar: name from a pool (incl. closers and a multi-byte name), 0..4 attributes each bare or key=value in single or double quotes, values from an adversarial pool (empty, spaces, '=', the other quote, line break, keywords, '/tl', the start delimiter, tab, attribute-like text), separators from {' ', '  ', '\\n', '\\n  ', ' \\n * ', '\\n * ', ' \\n'}, optional spaces around '=', optional padding inside the delimiters; embedded as pre+tag+post and tokenized with the real tokenizer under 3 delimiter pairs. Exhaustive for <= 2 attributes over reduced pools, random for <= 4. Oracle: parse == generating (name, attribute list) exactly. Decision part: probe elements with an opaque quoted attribute inserted at every position must be removed / kept exactly as without it. Non-trivial = >= 2 attributes and a line-break separator or an adversarial value.".into();
     ctx.assume("never generated because unspecified: unquoted values, duplicate condition attributes, values containing their own quote character or the end delimiter, tag bodies starting with the start or ending with the end delimiter");
+    ctx.require_class("line-break-separator");
+    ctx.require_class("line-break-after-quoted-value");
     ctx.replay_corpus(replay);
     // exhaustive: <= 2 attributes over reduced pools
     let red_values: Vec<&str> = vec!["", "v", "a b", "a=b", "it's", "say \"hi\"", "l1\nl2", "skip", "/tl", "\u{0}DS"];
